@@ -6,7 +6,9 @@ package main
 // calls it caused, the returned bytes and the projected post-state of the object it touched.
 
 import (
+	"bytes"
 	"crypto"
+	cryptorand "crypto/rand"
 	"crypto/sha256"
 	"encoding/json"
 	"errors"
@@ -19,12 +21,14 @@ import (
 )
 
 type world struct {
-	objs map[string]any    // *cose.Sign1Message | *cose.UntaggedSign1Message | *cose.SignMessage | *cose.Signature | *cose.Countersignature | *cose.Key
-	bufs map[string][]byte // named byte buffers
-	log  *spyLog
-	mark int
-	flag bool                     // set by a step with "setflag" (did it succeed?); steps with "ifflag" are skipped unless it is set
-	vers map[string]cose.Verifier // one verifier value per description (in a session: shared by all its cases)
+	objs      map[string]any    // *cose.Sign1Message | *cose.UntaggedSign1Message | *cose.SignMessage | *cose.Signature | *cose.Countersignature | *cose.Key
+	bufs      map[string][]byte // named byte buffers
+	log       *spyLog
+	mark      int
+	ksigner   cose.Signer // KeyModel: the signer / verifier last obtained from the key object
+	kverifier cose.Verifier
+	flag      bool                     // set by a step with "setflag" (did it succeed?); steps with "ifflag" are skipped unless it is set
+	vers      map[string]cose.Verifier // one verifier value per description (in a session: shared by all its cases)
 }
 
 func newWorld() *world {
@@ -397,8 +401,45 @@ func sigsOfFull(v any) []*cose.Signature {
 	return out
 }
 
+var errNoHandle = errors.New("nohandle")
+
+func keyFixtureName(kty, pair string) string {
+	if kty == "EC2" {
+		return "p256-" + pair
+	}
+	return map[string]string{"a": "ed0", "b": "ed1"}[pair]
+}
+
+// projectKey: the abstract view of a COSE_Key object (which fixture pair its public part belongs to, whether a private part is there)
+func projectKey(k *cose.Key) J {
+	ops := []any{}
+	for _, o := range k.Ops {
+		ops = append(ops, int(o))
+	}
+	pair := "?"
+	kty := map[cose.KeyType]string{cose.KeyTypeEC2: "EC2", cose.KeyTypeOKP: "OKP"}[k.Type]
+	for _, p := range []string{"a", "b"} {
+		if kty == "" {
+			break
+		}
+		ref, err := cose.NewKeyFromPublic(keyFor(keyFixtureName(kty, p)).Public())
+		if err != nil {
+			continue
+		}
+		x1, _ := k.ParamBytes(cose.KeyLabelEC2X)
+		x2, _ := ref.ParamBytes(cose.KeyLabelEC2X)
+		if len(x1) > 0 && bytes.Equal(bytes.TrimLeft(x1, "\x00"), bytes.TrimLeft(x2, "\x00")) {
+			pair = p
+		}
+	}
+	d, _ := k.ParamBytes(cose.KeyLabelEC2D)
+	return J{"kty": kty, "pair": pair, "hasd": len(d) > 0, "alg": int(k.Algorithm), "opsnil": k.Ops == nil, "ops": ops}
+}
+
 func projectObj(o any) J {
 	switch v := o.(type) {
+	case *cose.Key:
+		return projectKey(v)
 	case *cose.Sign1Message:
 		return projectSign1(v)
 	case *cose.UntaggedSign1Message:
@@ -548,6 +589,77 @@ func (w *world) step(st J) J {
 				err = o.Verify(verifiers[0], bytesOf(st["bodyprot"]), payloadOf(st["payload"]), extArg(st))
 			default:
 				fatal("verify on %T", o)
+			}
+		case "keynew":
+			priv := keyFor(keyFixtureName(str(st["kty"]), str(st["pair"])))
+			var k *cose.Key
+			if st["priv"] == true {
+				k, err = cose.NewKeyFromPrivate(priv)
+			} else {
+				k, err = cose.NewKeyFromPublic(priv.Public())
+			}
+			if err == nil {
+				w.objs[name] = k
+			}
+		case "keyedit":
+			k := w.objs[name].(*cose.Key)
+			switch str(st["what"]) {
+			case "alg":
+				switch str(st["v"]) {
+				case "none":
+					k.Algorithm = cose.AlgorithmReserved
+				case "ok":
+					if k.Type == cose.KeyTypeEC2 {
+						k.Algorithm = cose.AlgorithmES256
+					} else {
+						k.Algorithm = cose.AlgorithmEdDSA
+					}
+				default:
+					k.Algorithm = cose.AlgorithmES384 // contradicts P-256 and Ed25519 alike
+				}
+			case "ops":
+				k.Ops = map[string][]cose.KeyOp{"absent": nil, "empty": {}, "sign": {cose.KeyOpSign}, "verify": {cose.KeyOpVerify},
+					"both": {cose.KeyOpVerify, cose.KeyOpSign}, "other": {cose.KeyOpEncrypt, cose.KeyOpMACCreate}}[str(st["v"])]
+			case "dropd":
+				delete(k.Params, cose.KeyLabelEC2D) // (the OKP private label has the same value)
+			}
+		case "keymarshal":
+			var b []byte
+			b, err = w.objs[name].(*cose.Key).MarshalCBOR()
+			if err == nil {
+				w.bufs[str(st["buf"])] = b
+			}
+			obs["out"] = rawJ(b)
+			obs["outnil"] = b == nil
+		case "keyunmarshal":
+			err = w.objs[name].(*cose.Key).UnmarshalCBOR(w.bufs[str(st["buf"])])
+		case "keysigner":
+			var s cose.Signer
+			s, err = w.objs[name].(*cose.Key).Signer()
+			if err == nil {
+				w.ksigner = s
+			}
+		case "keyverifier":
+			var v cose.Verifier
+			v, err = w.objs[name].(*cose.Key).Verifier()
+			if err == nil {
+				w.kverifier = v
+			}
+		case "keysign":
+			if w.ksigner == nil {
+				err = errNoHandle
+			} else {
+				var b []byte
+				b, err = w.ksigner.Sign(cryptorand.Reader, []byte("message for the key model"))
+				if err == nil {
+					w.bufs["ksig"] = b
+				}
+			}
+		case "keyverify":
+			if w.kverifier == nil || w.bufs["ksig"] == nil {
+				err = errNoHandle
+			} else {
+				err = w.kverifier.Verify([]byte("message for the key model"), w.bufs["ksig"])
 			}
 		case "slotsetalg":
 			// caller edits the parsed protected map of one COSE_Signature of a COSE_Sign (retained raw bytes, if any, stay)
